@@ -317,6 +317,12 @@ class SymExec:
     def e_Constant(self, e):
         return C(e.value)
 
+    def e_NamedExpr(self, e):
+        v = self.expr(e.value)
+        if isinstance(e.target, ast.Name):
+            self.state.env[e.target.id] = v
+        return v
+
     def e_Name(self, e):
         if e.id in self.state.env:
             return self.state.env[e.id]
